@@ -297,6 +297,79 @@ def gen_history(seed, idx, tier, only_step_faults=False):
                                                "backdate": backdate, "sweep": False}}
 
 
+def gen_vf_history(seed, idx):
+    """a history on a two-master variable font project (UFO directories as intermediate outputs)"""
+    r = gen.rng(seed, "c09vf", idx, "ops")
+    rf = gen.rng(seed, "c09vf", idx, "faults")
+    rs = gen.rng(seed, "c09vf", idx, "sched")
+    fmt = r.choice(["glyf_colr_1", "glyf_colr_0", "glyf"])
+    names = ["emoji_u%04x.svg" % c for c in r.sample(range(0x61, 0x7B), r.randint(1, 3))]
+    design = {}  # path -> content; the two corpus files interpolate with each other
+    for n in names:
+        design["thin/" + n] = "corpus:vf/thin61.svg"
+        design["bold/" + n] = "corpus:vf/bold61.svg"
+    opts = {"output_file": "Font.ttf", "color_format": fmt}
+    ops = [{"op": "write", "path": p_, "content": c} for p_, c in sorted(design.items())]
+    enabled = [k for k in ("step", "driver", "kill") if rf.random() < 0.7]
+    kinds = ["vf"]
+    state = {"glob": r.random() < 0.5}
+
+    def toml():
+        ms = {}
+        for m, w_ in (("thin", 300), ("bold", 700)):
+            srcs = [m + "/*.svg"] if state["glob"] else sorted(p_ for p_ in design if p_.startswith(m + "/"))
+            ms[m] = {"style_name": m.title(), "srcs": srcs, "position": {"wght": w_}}
+        return gen.toml_config(opts, None, masters=ms, axes={"wght": ("Weight", 300)})
+
+    def invoke(label, plan):
+        ops.append({"op": "write", "path": "config.toml", "content": "text:" + toml()})
+        op = {"op": "invoke", "cwd": ".", "argv": ["config.toml"], "build_dir": "build", "label": label, "sched": gen.sched(rs)}
+        op.update(plan)
+        ops.append(op)
+
+    n_inv = r.randint(1, 3)
+    for i in range(n_inv):
+        invoke("h%d" % i, _fault_plan(rf, enabled))
+        for _ in range(r.randint(0, 2)):
+            k = r.choice(["swap", "swap", "add", "remove", "option", "format", "glob"])
+            if k == "swap":
+                p_ = r.choice(sorted(design))
+                design[p_] = "corpus:vf/bold61.svg" if design[p_].endswith("thin61.svg") else "corpus:vf/thin61.svg"
+                ops.append({"op": "write", "path": p_, "content": design[p_]})
+            elif k == "add":
+                n = "emoji_u%04x.svg" % r.choice(range(0x41, 0x5B))
+                if "thin/" + n in design:
+                    continue
+                for m, c in (("thin", "corpus:vf/thin61.svg"), ("bold", "corpus:vf/bold61.svg")):
+                    design[m + "/" + n] = c
+                    ops.append({"op": "write", "path": m + "/" + n, "content": c})
+            elif k == "remove":
+                ns = sorted({os.path.basename(p_) for p_ in design})
+                if len(ns) < 2:
+                    continue
+                n = r.choice(ns)
+                for m in ("thin", "bold"):
+                    del design[m + "/" + n]
+                    ops.append({"op": "remove", "path": m + "/" + n})
+            elif k == "option":
+                name = r.choice(["family", "version_major", "keep_glyph_names", "upem", "width", "linegap"])
+                opts[name] = r.choice(gen.OPTION_VALUES[name])
+            elif k == "format":
+                opts["color_format"] = r.choice(["glyf_colr_1", "glyf_colr_0", "glyf"])
+            else:
+                state["glob"] = not state["glob"]
+            kinds.append(k)
+    invoke("final", {})
+    ops[-1]["final"] = True
+    ops.append({"op": "rename", "src": "build", "dst": "build.aside", "keep": True})
+    ops.append({"op": "invoke", "cwd": ".", "argv": ["config.toml"], "build_dir": "build", "label": "ref", "final": True,
+                "sched": {"j": 1, "policy": "manifest", "seed": 0, "exec_at": "finish"}})
+    cid = "c09-%d-vf%d" % (seed, idx)
+    job = {"id": cid + ".j0", "root_id": "c09/%d/vf%d" % (seed, idx), "hashseed": H(seed, "c09vf", idx, "hs") % 4294967296,
+           "clock_seed": H(seed, "c09vf", idx, "clock") % (1 << 31), "readdir_seed": H(seed, "c09vf", idx, "rd") % (1 << 31), "ops": ops}
+    return {"id": cid, "jobs": [job], "meta": {"font": "Font.ttf", "kinds": kinds, "fmt": opts["color_format"], "backdate": False, "sweep": False}}
+
+
 # ---------------------------------------------------------------------------
 # single-fault sweep (thorough): every dirty edge x every fault kind, once
 # ---------------------------------------------------------------------------
@@ -392,6 +465,7 @@ def sweep_cases(seed, scale):
 def gen_cases(seed, tier, scale=1.0):
     n = int((220 if tier == "quick" else 6000) * scale)
     cases = [gen_history(seed, i, tier) for i in range(n)]
+    cases += [gen_vf_history(seed, i) for i in range(max(1, n // 12))]
     for c in cases:
         c["jobs"][0]["keep_trace"] = False
     if tier == "thorough":
